@@ -1,5 +1,7 @@
 from functools import wraps
 
+import numpy as np
+
 __all__ = []
 
 
@@ -9,6 +11,30 @@ def is_iterable(obj) -> bool:
         return True
     except TypeError:
         return False
+
+
+def free_channel(used, dtype, channel=None) -> int:
+    """
+    Returns the channel for a new item of a channel map that is stored
+    as integers of type `dtype`: the requested one if it fits that type and
+    is not in use, or else the one after the highest channel in use (the
+    lowest free one when that doesn't fit the type anymore).
+    """
+    limits = np.iinfo(dtype)
+    if channel is None:
+        channel = max(used) + 1 if len(used) > 0 else 0
+        if channel > limits.max:
+            channel = next((c for c in range(limits.max + 1) if c not in used), None)
+            if channel is None:
+                raise ValueError("No free channel left")
+        return channel
+    if not limits.min <= channel <= limits.max:
+        raise ValueError(
+            f"Channel {channel} out of range ({limits.min} to {limits.max})"
+        )
+    if channel in used:
+        raise ValueError(f"Channel {channel} already in use")
+    return channel
 
 
 class OutsideOfContextError(Exception):
